@@ -226,6 +226,9 @@ def gen_e2e_case(rng, n):
             cfg[OWN[cls][0]] = 'gopher' + u[u.index('://'):]
     case = {'kind': 'e2e', 'cls': cls, 'stage': stage, 'as_cfg': rng.random() < 0.4, 'config': enc(cfg, (), []), 'plants': plants,
             'meta': cls in ('VideoIn', 'VideoOut')}
+    # observability switches read from the environment at import (TELEMETRY_EXPORTER_ENABLED, OPENLINEAGE_EXPORT_RAW_DATA): whatever they are set to, nothing
+    # that leaves the filter carries a clear-text password
+    if rng.random() < 0.25: case['switches'] = {'telemetry': rng.choice(['true', 'true', 'false', '1']), 'raw': rng.random() < 0.7}
     if cls == 'VideoIn' and rng.random() < 0.4: case['open_fail'] = rng.randint(0, 3)
     if cls == 'VideoIn' and rng.random() < 0.4: case['ends'] = rng.randint(0, 2)
     if cls == 'MQTTOut' and rng.random() < 0.5:
@@ -366,6 +369,8 @@ def run_e2e(env, case):
         norm_args.append(r)
         return r
     if orig_norm is not None: cls.normalize_config = classmethod(norm)
+    sw, sw_old = case.get('switches'), (env.fmod.TELEMETRY_EXPORTER_ENABLED, env.fmod.OPENLINEAGE_EXPORT_RAW_DATA)
+    if sw: env.fmod.TELEMETRY_EXPORTER_ENABLED, env.fmod.OPENLINEAGE_EXPORT_RAW_DATA = sw['telemetry'], bool(sw['raw'])
     try:
         if case['stage'] == 'loop':
             lp, nproc, root = case['loop'], [0], logging.getLogger()
@@ -435,6 +440,8 @@ def run_e2e(env, case):
                         except Exception: pass
     finally:
         env.FakeVideoGear.fail = set(); env.FakeVideoGear.end_after = None
+        env.fmod.TELEMETRY_EXPORTER_ENABLED, env.fmod.OPENLINEAGE_EXPORT_RAW_DATA = sw_old
+        if f is not None and getattr(f, 'stop_evt', None) is not None: f.stop_evt.set()      # ends the metrics updater thread of a telemetry-enabled filter
         if orig_norm is not None: cls.normalize_config = orig_norm
         if f is not None:
             try: f.stop_logging()
